@@ -1,2 +1,817 @@
-// stub created by the lead so that the workspace always loads; replace it with the check
-fn main() {}
+//! C10 — authoritative answers follow the RFC 1034 section 4.3.2 algorithm (with RFC 4592).
+//!
+//! E-ENUM: every zone of the small universe (DESIGN 5.1) x every query name in and around the
+//! zone x qtypes {A,AAAA,MX,NS,CNAME,SOA,DS,TXT,ANY}; each query goes in wire form through
+//! `vsim::serve` -> real `Catalog::handle_request` -> real `InMemoryZoneHandler`, once against the
+//! unsigned zone (DO=0) and once each against the NSEC- and NSEC3-signed zone (DO=1, signed by the
+//! real server code). The response is compared with `vref::zone::resolve` ONLY on what the
+//! property statement fixes:
+//!
+//!  * rcode; the set of answer RRs (CNAME chain followed inside the zone, owner rewritten for
+//!    wildcard synthesis);
+//!  * referral: empty answer and the NS RRset of the cut that ends the zone's authority in the
+//!    authority section; no RR from at/below a cut in the answer section;
+//!  * wildcard synthesis from `*.<closest encloser>` only (RFC 4592 3.3.1);
+//!  * NODATA (incl. empty non-terminals) vs NXDOMAIN, SOA in the authority section;
+//!  * DO=1 on a signed zone: every authoritative RRset in answer/authority has an RRSIG covering
+//!    it; negative and wildcard answers carry at least one NSEC/NSEC3.
+//!
+//! Not judged (statement silent): AA, additional section, record order, contents of ANY answers
+//! beyond "RRs of the right node", NS/ANY queries for a delegation point itself, NS at a wildcard
+//! owner (excluded from the grammar, RFC 4592 4.2), rcode/authority after a CNAME chain, DS/NSEC
+//! in referrals, CNAME chains cut after >= 8 hops.
+//!
+//! Violation keys are `<clause>:<scene>` where the scene is the abstract local configuration:
+//! status of the name (data / ent / absent, `*` label), closest-encloser level, what the
+//! reference expects, what the response carried (which wildcard level supplied the data) and
+//! `hw` = the wildcard level hickory's known bottom-up search (upstream issue #2905) would pick.
+
+use std::collections::{BTreeMap, BTreeSet};
+
+use hickory_proto::dnssec::rdata::DNSSECRData;
+use hickory_proto::op::Message;
+use hickory_proto::rr::{RData as HRData, Record};
+use serde_json::{json, Value};
+use vcore::{fnv_str, Ctx, Local};
+use vref::zone::{self as rz, Name, NoDataKind, NodeStatus, Resolution, Rr, Step, Zone};
+use vzone::{Kind, RecSpec, Signing, ZoneSpec};
+
+const QTYPES: [u16; 9] = [rz::T_A, rz::T_AAAA, rz::T_MX, rz::T_NS, rz::T_CNAME, rz::T_SOA, rz::T_DS, rz::T_TXT, rz::T_ANY];
+
+fn is_dnssec_type(t: u16) -> bool {
+    matches!(t, rz::T_RRSIG | rz::T_NSEC | rz::T_NSEC3 | rz::T_NSEC3PARAM | rz::T_DNSKEY)
+}
+
+// ------------------------------------------------------------------------------------------
+// observation
+
+#[derive(Debug, Clone)]
+struct Sig {
+    owner: Name,
+    covered: u16,
+    labels: u8,
+}
+
+#[derive(Debug, Clone)]
+struct Obs {
+    rcode: String,
+    aa: bool,
+    tc: bool,
+    answer: Vec<Rr>,
+    answer_sigs: Vec<Sig>,
+    authority: Vec<Rr>,
+    authority_sigs: Vec<Sig>,
+}
+
+fn split(records: &[Record]) -> (Vec<Rr>, Vec<Sig>) {
+    let mut rrs = vec![];
+    let mut sigs = vec![];
+    for r in records {
+        match &r.data {
+            HRData::DNSSEC(DNSSECRData::RRSIG(s)) => sigs.push(Sig {
+                owner: vzone::ref_name(&r.name),
+                covered: s.input().type_covered.into(),
+                labels: s.input().num_labels,
+            }),
+            _ => rrs.push(vzone::ref_rr(r)),
+        }
+    }
+    (rrs, sigs)
+}
+
+fn observe(m: &Message) -> Obs {
+    let (answer, answer_sigs) = split(&m.answers);
+    let (authority, authority_sigs) = split(&m.authorities);
+    Obs {
+        rcode: format!("{:?}", m.metadata.response_code).to_uppercase(),
+        aa: m.metadata.authoritative,
+        tc: m.metadata.truncation,
+        answer,
+        answer_sigs,
+        authority,
+        authority_sigs,
+    }
+}
+
+// ------------------------------------------------------------------------------------------
+// scenes
+
+/// Level of a wildcard owner relative to `name`: `*.parent(name)` is up1, `*.grandparent` up2, ...
+fn up_level(name: &Name, wildcard: &Name) -> usize {
+    name.num_labels() + 1 - wildcard.num_labels()
+}
+
+fn wildcard_at(name: &Name, j: usize) -> Name {
+    name.suffix(name.num_labels() - j).wildcard_child()
+}
+
+/// Status of a wildcard owner with respect to the query type: T has the type, C has a CNAME
+/// (and not the type), O owns other data only, E empty non-terminal, - absent.
+fn wild_status(zone: &Zone, w: &Name, qtype: u16) -> char {
+    match zone.status(w) {
+        NodeStatus::Absent => '-',
+        NodeStatus::Ent => 'E',
+        NodeStatus::Data => {
+            if qtype == rz::T_ANY || zone.has(w, qtype) {
+                'T'
+            } else if zone.has(w, rz::T_CNAME) {
+                'C'
+            } else {
+                'O'
+            }
+        }
+    }
+}
+
+/// The wildcard level that a bottom-up search "first wildcard owning the type or a CNAME wins"
+/// (the behaviour recorded in upstream issue #2905) would use for `name`.
+fn hw_level(zone: &Zone, name: &Name, qtype: u16) -> Option<usize> {
+    let depth = name.num_labels() - zone.origin.num_labels();
+    (1..=depth).find(|j| matches!(wild_status(zone, &wildcard_at(name, *j), qtype), 'T' | 'C'))
+}
+
+fn exp_desc(name: &Name, s: &Step) -> String {
+    match s {
+        Step::OutOfZone => "OUT".into(),
+        Step::Referral { .. } => "REFERRAL".into(),
+        Step::Data { source, .. } if source == name => "DATA".into(),
+        Step::Data { source, .. } => format!("SYNTH@up{}", up_level(name, source)),
+        Step::Cname { source, .. } if source == name => "CNAME".into(),
+        Step::Cname { source, .. } => format!("SYNTHCNAME@up{}", up_level(name, source)),
+        Step::NoData(NoDataKind::OtherData) => "NODATA(other)".into(),
+        Step::NoData(NoDataKind::Ent) => "NODATA(ent)".into(),
+        Step::NoData(NoDataKind::Wildcard { source }) => format!("NODATA(wild@up{})", up_level(name, source)),
+        Step::NoData(NoDataKind::WildcardEnt { source }) => format!("NODATA(wildent@up{})", up_level(name, source)),
+        Step::NxDomain { .. } => "NXDOMAIN".into(),
+    }
+}
+
+/// Describe the RRs the response carries for `name` by where in the zone they come from.
+fn got_desc(zone: &Zone, name: &Name, qtype: u16, rrs: &[&Rr]) -> String {
+    if rrs.is_empty() {
+        return "EMPTY".into();
+    }
+    let set_of = |t: u16| -> BTreeSet<rz::RData> { rrs.iter().filter(|r| r.rtype == t).map(|r| r.rdata.clone()).collect() };
+    let types: BTreeSet<u16> = rrs.iter().map(|r| r.rtype).collect();
+    let depth = name.num_labels().saturating_sub(zone.origin.num_labels());
+    if qtype == rz::T_ANY {
+        let all: BTreeSet<(u16, rz::RData)> = rrs.iter().map(|r| (r.rtype, r.rdata.clone())).collect();
+        let node = |o: &Name| -> BTreeSet<(u16, rz::RData)> { zone.rrs_at(o).into_iter().map(|r| (r.rtype, r.rdata)).collect() };
+        if all.is_subset(&node(name)) {
+            return "DATA".into();
+        }
+        for j in 1..=depth {
+            if all.is_subset(&node(&wildcard_at(name, j))) {
+                return format!("SYNTH@up{j}");
+            }
+        }
+        return "OTHER".into();
+    }
+    if types.len() == 1 {
+        let t = *types.iter().next().unwrap();
+        let set = set_of(t);
+        let label = if t == qtype {
+            Some("")
+        } else if t == rz::T_CNAME {
+            Some("CNAME")
+        } else {
+            None
+        };
+        if let Some(label) = label {
+            if zone.rrset(name, t) == Some(&set) {
+                return if label.is_empty() { "DATA".into() } else { "CNAME".into() };
+            }
+            for j in 1..=depth {
+                if zone.rrset(&wildcard_at(name, j), t) == Some(&set) {
+                    return format!("SYNTH{label}@up{j}");
+                }
+            }
+        }
+        if t == rz::T_NS && zone.rrset(name, t) == Some(&set) {
+            return "NS".into();
+        }
+        return format!("OTHER({})", rz::type_name(t));
+    }
+    "OTHER(mixed)".into()
+}
+
+struct SceneCtx<'a> {
+    zone: &'a Zone,
+    qtype: u16,
+}
+
+impl SceneCtx<'_> {
+    /// `<clause>:q=<status>[*][,via-cname]:ce=up<k>:exp=..:got=..:hw=..`
+    fn key(&self, clause: &str, name: &Name, via_cname: bool, exp: &str, got: &str) -> String {
+        let st = match self.zone.status(name) {
+            NodeStatus::Data => "data",
+            NodeStatus::Ent => "ent",
+            NodeStatus::Absent => "absent",
+        };
+        let in_zone = name.strictly_below(&self.zone.origin);
+        let ce = if in_zone && st == "absent" {
+            format!("up{}", name.num_labels() - self.zone.closest_encloser(name).num_labels())
+        } else {
+            "-".into()
+        };
+        let hw = if in_zone {
+            hw_level(self.zone, name, self.qtype).map(|j| format!("up{j}")).unwrap_or("-".into())
+        } else {
+            "-".into()
+        };
+        format!(
+            "{clause}:q={st}{}{}{}:ce={ce}:exp={exp}:got={got}:hw={hw}",
+            if name.is_wildcard() { "*" } else { "" },
+            if via_cname { ",via-cname" } else { "" },
+            if self.qtype == rz::T_ANY { ",t=ANY" } else { "" },
+        )
+    }
+}
+
+// ------------------------------------------------------------------------------------------
+// the oracle
+
+struct Verdict {
+    key: String,
+    what: String,
+}
+
+fn v(key: String, what: String) -> Option<Verdict> {
+    Some(Verdict { key, what })
+}
+
+/// Compare one response with the reference resolution. Returns the first deviation.
+fn judge(zone: &Zone, qname: &Name, qtype: u16, res: &Resolution, obs: &Obs, signed: bool, l: &mut Local) -> Option<Verdict> {
+    let sc = SceneCtx { zone, qtype };
+    let first = &res.first().1;
+    if matches!(first, Step::OutOfZone) {
+        l.outcome(&format!("out-of-zone:{}", obs.rcode));
+        return None;
+    }
+    if obs.tc {
+        l.outcome("obs:tc-set");
+    }
+    if !matches!(obs.rcode.as_str(), "NOERROR" | "NXDOMAIN") {
+        return v(
+            sc.key("rcode", qname, false, &exp_desc(qname, first), &obs.rcode),
+            format!("rcode {} for an in-zone query", obs.rcode),
+        );
+    }
+
+    // duplicates in the answer section (RFC 2181 5: an RRset cannot contain the same RR twice)
+    {
+        let mut seen = BTreeSet::new();
+        for r in &obs.answer {
+            if !seen.insert(r) {
+                return v("answer-duplicate-rr".into(), format!("answer section repeats {r}"));
+            }
+        }
+    }
+
+    // the delegation point itself asked for NS / ANY: both shapes are defensible, not judged
+    if let Step::Referral { cut } = first {
+        if cut == qname && (qtype == rz::T_NS || qtype == rz::T_ANY) {
+            l.outcome(if obs.answer.is_empty() { "obs:ns-at-cut:referral" } else { "obs:ns-at-cut:answer" });
+            return None;
+        }
+    }
+
+    // ---- walk the observed answer section along the CNAME chain
+    let plain: Vec<&Rr> = obs.answer.iter().filter(|r| !is_dnssec_type(r.rtype)).collect();
+    let mut used = vec![false; plain.len()];
+    let mut cur = qname.clone();
+    let mut seen_names = BTreeSet::new();
+    let mut i = 0usize;
+    loop {
+        seen_names.insert(cur.clone());
+        let here: Vec<usize> = (0..plain.len()).filter(|k| !used[*k] && plain[*k].owner == cur).collect();
+        let here_rrs: Vec<&Rr> = here.iter().map(|k| plain[*k]).collect();
+        let exp_step = res.steps.get(i).map(|(n, s)| {
+            debug_assert_eq!(n, &cur);
+            s
+        });
+        let via = i > 0;
+        let Some(exp_step) = exp_step else {
+            // the reference chain ended before (loop closed): anything more is extra
+            break;
+        };
+        let exp = exp_desc(&cur, exp_step);
+        let got = got_desc(zone, &cur, qtype, &here_rrs);
+        match exp_step {
+            Step::Data { rtype, rdata, any, .. } => {
+                if qtype == rz::T_ANY {
+                    if here_rrs.is_empty() || got != exp {
+                        return v(sc.key("answer", &cur, via, &exp, &got), format!("ANY {cur}: expected RRs of the matched node, got {got}"));
+                    }
+                    let _ = any;
+                } else {
+                    let got_set: BTreeSet<rz::RData> = here_rrs.iter().filter(|r| r.rtype == *rtype).map(|r| r.rdata.clone()).collect();
+                    if got_set != *rdata || here_rrs.iter().any(|r| r.rtype != *rtype) {
+                        return v(
+                            sc.key("answer", &cur, via, &exp, &got),
+                            format!("{cur} {}: expected {exp} {rdata:?}, answer has {got} {here_rrs:?}", rz::type_name(qtype)),
+                        );
+                    }
+                }
+                for k in here {
+                    used[k] = true;
+                }
+                break;
+            }
+            Step::Cname { target, .. } => {
+                let ok = here_rrs.len() == 1 && here_rrs[0].rtype == rz::T_CNAME && here_rrs[0].rdata == rz::RData::Cname(target.clone());
+                if !ok {
+                    if here_rrs.is_empty() && i >= 8 {
+                        l.outcome("obs:cname-chain-cut-after-8-hops");
+                        break;
+                    }
+                    return v(
+                        sc.key("answer", &cur, via, &exp, &got),
+                        format!("{cur} {}: expected {exp} -> {target}, answer has {got} {here_rrs:?}", rz::type_name(qtype)),
+                    );
+                }
+                for k in here {
+                    used[k] = true;
+                }
+                if qtype == rz::T_CNAME || qtype == rz::T_ANY {
+                    break;
+                }
+                if seen_names.contains(target) {
+                    break; // loop closed
+                }
+                cur = target.clone();
+                i += 1;
+            }
+            Step::OutOfZone | Step::Referral { .. } | Step::NoData(_) | Step::NxDomain { .. } => {
+                if !here_rrs.is_empty() {
+                    return v(
+                        sc.key("answer", &cur, via, &exp, &got),
+                        format!("{cur} {}: expected {exp}, answer has {got} {here_rrs:?}", rz::type_name(qtype)),
+                    );
+                }
+                break;
+            }
+        }
+    }
+    // leftover answer RRs that are not on the chain
+    let leftover: Vec<&Rr> = (0..plain.len()).filter(|k| !used[*k]).map(|k| plain[k]).collect();
+    if !leftover.is_empty() {
+        let (last_name, last_step) = res.last();
+        if let (Step::Referral { cut }, true) = (last_step, res.steps.len() > 1) {
+            if leftover.iter().all(|r| r.rtype == rz::T_NS && r.owner == *cut) {
+                return v(
+                    "answer:via-cname:exp=STOP-AT-CUT:got=NS-OF-CUT-IN-ANSWER".into(),
+                    format!("CNAME target {last_name} lies at/below the cut {cut}: its NS RRset is in the ANSWER section"),
+                );
+            }
+        }
+        let t: BTreeSet<String> = leftover.iter().map(|r| rz::type_name(r.rtype)).collect();
+        let below = leftover.iter().any(|r| zone.cut_on_path(&r.owner).is_some());
+        return v(
+            format!("answer-extra-rr:{}{}", t.into_iter().collect::<Vec<_>>().join("+"), if below { ":at-or-below-cut" } else { "" }),
+            format!("answer section carries RRs that are not on the CNAME chain from {qname}: {leftover:?}"),
+        );
+    }
+    // no data from at/below a cut in the answer section (DS at the cut is parent-side data)
+    for r in &plain {
+        if let Some(cut) = zone.cut_on_path(&r.owner) {
+            if !(r.owner == cut && r.rtype == rz::T_DS) {
+                return v(format!("answer-below-cut:{}", rz::type_name(r.rtype)), format!("answer RR {r} is at/below the cut {cut}"));
+            }
+        }
+    }
+
+    // ---- final step: rcode and authority section
+    let (last_name, last) = res.last();
+    let chained = res.steps.len() > 1;
+    let soa_in_auth = obs.authority.iter().any(|r| r.rtype == rz::T_SOA && r.owner == zone.origin);
+    let ns_owners: BTreeSet<Name> = obs.authority.iter().filter(|r| r.rtype == rz::T_NS).map(|r| r.owner.clone()).collect();
+    let exp = exp_desc(last_name, last);
+    if !chained {
+        match last {
+            Step::Data { .. } | Step::Cname { .. } => {
+                if obs.rcode != "NOERROR" {
+                    return v(sc.key("rcode", qname, false, &exp, &obs.rcode), format!("positive answer with rcode {}", obs.rcode));
+                }
+            }
+            Step::NoData(_) | Step::NxDomain { .. } => {
+                let want = if matches!(last, Step::NoData(_)) { "NOERROR" } else { "NXDOMAIN" };
+                if obs.rcode != want {
+                    let got = if obs.rcode == "NOERROR" { "NODATA" } else { "NXDOMAIN" };
+                    return v(
+                        sc.key("rcode", qname, false, &exp, got),
+                        format!("{qname} {}: expected {exp}, got rcode {} with an empty answer", rz::type_name(qtype), obs.rcode),
+                    );
+                }
+                if !ns_owners.is_empty() && !soa_in_auth {
+                    return v(
+                        sc.key("authority", qname, false, &exp, "REFERRAL"),
+                        format!("{qname} {}: expected {exp}, got a referral to {ns_owners:?}", rz::type_name(qtype)),
+                    );
+                }
+                if !soa_in_auth {
+                    return v(format!("soa-missing:exp={}", last.class()), format!("negative answer for {qname} without the zone's SOA in the authority section"));
+                }
+            }
+            Step::Referral { cut } => {
+                if obs.rcode != "NOERROR" {
+                    return v(sc.key("rcode", qname, false, &exp, &obs.rcode), format!("referral expected at {cut}, rcode {}", obs.rcode));
+                }
+                if ns_owners.is_empty() {
+                    let got = if soa_in_auth { "NODATA" } else { "EMPTY" };
+                    return v(sc.key("authority", qname, false, &exp, got), format!("referral expected at {cut}: no NS RRset in the authority section"));
+                }
+                if ns_owners.len() != 1 || !ns_owners.contains(cut) {
+                    let rel: Vec<String> = ns_owners
+                        .iter()
+                        .map(|o| {
+                            if o == cut {
+                                "cut".to_string()
+                            } else if o.strictly_below(cut) {
+                                "below-cut".to_string()
+                            } else if *o == zone.origin {
+                                "apex".to_string()
+                            } else {
+                                "other".to_string()
+                            }
+                        })
+                        .collect();
+                    return v(
+                        format!("referral-wrong-cut:got={}", rel.join("+")),
+                        format!("{qname}: authority ends at {cut} but the referral carries NS of {ns_owners:?} (data from below a cut)"),
+                    );
+                }
+                let got_ns: BTreeSet<rz::RData> = obs.authority.iter().filter(|r| r.rtype == rz::T_NS).map(|r| r.rdata.clone()).collect();
+                if Some(&got_ns) != zone.rrset(cut, rz::T_NS) {
+                    return v("referral-ns-set-differs".into(), format!("referral at {cut}: NS set {got_ns:?}"));
+                }
+                if soa_in_auth {
+                    l.outcome("obs:referral-with-soa");
+                }
+                if obs.aa {
+                    l.outcome("obs:referral-aa-set");
+                }
+            }
+            Step::OutOfZone => {}
+        }
+    } else {
+        // after a CNAME chain the statement fixes neither rcode nor authority; NXDOMAIN is only
+        // defensible if the chain really ends at a non-existent name
+        if obs.rcode == "NXDOMAIN" && !matches!(last, Step::NxDomain { .. }) {
+            return v(sc.key("rcode", last_name, true, &exp, "NXDOMAIN"), format!("chain ends in {exp} but rcode is NXDOMAIN"));
+        }
+        l.outcome(&format!("obs:chain-end:{}:{}{}", last.class(), obs.rcode, if soa_in_auth { "+soa" } else { "" }));
+    }
+    if !obs.aa && !matches!(last, Step::Referral { .. }) {
+        l.outcome("obs:aa-clear-on-authoritative-answer");
+    }
+
+    // ---- DNSSEC clauses (DO=1 on a signed zone)
+    if signed {
+        let check_section = |rrs: &[Rr], sigs: &[Sig], section: &str| -> Option<Verdict> {
+            let sets: BTreeSet<(Name, u16)> = rrs.iter().map(|r| (r.owner.clone(), r.rtype)).collect();
+            for (owner, t) in sets {
+                if !zone.is_authoritative_rrset(&owner, t) {
+                    continue;
+                }
+                if !sigs.iter().any(|s| s.owner == owner && s.covered == t) {
+                    return v(
+                        format!("dnssec:rrsig-missing:{section}:{}", rz::type_name(t)),
+                        format!("DO=1: authoritative RRset {owner} {} in the {section} section has no RRSIG", rz::type_name(t)),
+                    );
+                }
+            }
+            None
+        };
+        if let Some(x) = check_section(&obs.answer, &obs.answer_sigs, "answer") {
+            return Some(x);
+        }
+        if let Some(x) = check_section(&obs.authority, &obs.authority_sigs, "authority") {
+            return Some(x);
+        }
+        let has_denial = obs.authority.iter().any(|r| r.rtype == rz::T_NSEC || r.rtype == rz::T_NSEC3);
+        let obs_negative = obs.answer.is_empty() && !(matches!(last, Step::Referral { .. }) && !chained);
+        let obs_wild = obs.answer_sigs.iter().any(|s| (s.labels as usize) < s.owner.num_labels() - s.owner.is_wildcard() as usize);
+        let exp_wild = res.steps.iter().any(|(n, s)| s.wildcard_source(n).is_some() && matches!(s, Step::Data { .. } | Step::Cname { .. }));
+        if obs_negative && !has_denial {
+            return v(
+                format!("dnssec:denial-missing:negative:{}", last.class()),
+                format!("DO=1: negative answer for {qname} {} carries no NSEC/NSEC3", rz::type_name(qtype)),
+            );
+        }
+        if (obs_wild || exp_wild) && !has_denial {
+            return v(
+                "dnssec:denial-missing:wildcard".into(),
+                format!("DO=1: wildcard-synthesised answer for {qname} {} carries no NSEC/NSEC3", rz::type_name(qtype)),
+            );
+        }
+        if obs_negative {
+            l.outcome("dnssec:negative-with-denial");
+        }
+        if obs_wild {
+            l.outcome("dnssec:wildcard-with-denial");
+        }
+        if matches!(last, Step::Referral { .. }) && !chained {
+            let has_ds = obs.authority.iter().any(|r| r.rtype == rz::T_DS);
+            l.outcome(if has_ds || has_denial { "obs:referral-with-ds-or-denial" } else { "obs:referral-without-ds-or-denial" });
+        }
+    }
+    None
+}
+
+// ------------------------------------------------------------------------------------------
+// running
+
+fn case_json(spec: &ZoneSpec, signing: &Signing, qname: &str, qtype: u16) -> Value {
+    json!({"zone": spec.to_json(), "zone_text": spec.to_string(), "signing": signing.tag(), "qname": qname, "qtype": qtype, "qtype_name": rz::type_name(qtype)})
+}
+
+/// Run one query; returns the violation (key, what, response text) if any.
+fn run_query(
+    built: &vzone::Built,
+    zone: &Zone,
+    res: &Resolution,
+    qname: &str,
+    qtype: u16,
+    rt: &tokio::runtime::Runtime,
+    l: &mut Local,
+) -> Option<(Verdict, String)> {
+    l.eval();
+    let signed = built.signing.is_signed();
+    let asked = vcore::catch(|| vzone::ask(rt, &built.catalog, qname, qtype, signed));
+    let m = match asked {
+        Err(p) => {
+            return Some((
+                Verdict { key: format!("panic:{}", vcore::short_loc(&p.loc)), what: format!("server panicked: {}", p.msg) },
+                String::new(),
+            ))
+        }
+        Ok(Err(e)) => return Some((Verdict { key: "no-single-decodable-response".into(), what: e }, String::new())),
+        Ok(Ok(m)) => m,
+    };
+    let obs = observe(&m);
+    let qn = Name::parse(qname);
+    judge(zone, &qn, qtype, res, &obs, signed, l).map(|vd| {
+        let txt = format!(
+            "rcode={} aa={} answer={:?} authority={:?}",
+            obs.rcode,
+            obs.aa,
+            obs.answer.iter().map(|r| r.to_string()).collect::<Vec<_>>(),
+            obs.authority.iter().map(|r| format!("{} {}", r.owner, rz::type_name(r.rtype))).collect::<Vec<_>>()
+        );
+        (vd, txt)
+    })
+}
+
+fn signings(thorough: bool) -> Vec<Signing> {
+    let mut v = vec![
+        Signing::Unsigned,
+        Signing::Nsec,
+        Signing::Nsec3 { iterations: 0, salt: vec![], opt_out: false },
+    ];
+    if thorough {
+        v.push(Signing::Nsec3 { iterations: 1, salt: vec![0xab], opt_out: true });
+    }
+    v
+}
+
+/// Remove owners from the spec while the same query still produces the same key.
+fn minimise(spec: &ZoneSpec, signing: &Signing, qname: &str, qtype: u16, key: &str, rt: &tokio::runtime::Runtime) -> ZoneSpec {
+    let mut cur = spec.clone();
+    let mut scratch = Local::default();
+    loop {
+        let mut shrunk = false;
+        for i in 0..cur.owners.len() {
+            let mut cand = cur.clone();
+            cand.owners.remove(i);
+            let Ok(b) = vzone::build(&cand, signing) else { continue };
+            let z = cand.reference();
+            let res = rz::resolve(&z, &Name::parse(qname), qtype);
+            if let Some((vd, _)) = run_query(&b, &z, &res, qname, qtype, rt, &mut scratch) {
+                if vd.key == key {
+                    cur = cand;
+                    shrunk = true;
+                    break;
+                }
+            }
+        }
+        if !shrunk {
+            return cur;
+        }
+    }
+}
+
+fn class_of(res: &Resolution) -> String {
+    let (n, s) = res.last();
+    let mut c = match s {
+        Step::Data { source, .. } if source != n => "SYNTH".to_string(),
+        Step::NoData(k) => match k {
+            NoDataKind::OtherData => "NODATA-other".into(),
+            NoDataKind::Ent => "NODATA-ent".into(),
+            NoDataKind::Wildcard { .. } => "NODATA-wild".into(),
+            NoDataKind::WildcardEnt { .. } => "NODATA-wildent".into(),
+        },
+        o => o.class().to_string(),
+    };
+    if res.steps.len() > 1 {
+        c = format!("CNAME->{c}");
+    }
+    if res.looped {
+        c = "CNAME-loop".into();
+    }
+    c
+}
+
+fn run_zone(spec: &ZoneSpec, qnames: &[String], sigs: &[Signing], rt: &tokio::runtime::Runtime, l: &mut Local, sample: bool) {
+    let zone = spec.reference();
+    // reference resolutions once per (qname, qtype)
+    let mut refs: Vec<(usize, u16, Resolution)> = vec![];
+    for (qi, qn) in qnames.iter().enumerate() {
+        let name = Name::parse(qn);
+        for t in QTYPES {
+            refs.push((qi, t, rz::resolve(&zone, &name, t)));
+        }
+    }
+    let zone_text = spec.to_string();
+    for signing in sigs {
+        let built = match vzone::build(spec, signing) {
+            Ok(b) => b,
+            Err(e) => {
+                l.violation("zone-build-failed", &e, || json!({"zone": spec.to_json(), "signing": signing.tag()}));
+                continue;
+            }
+        };
+        l.outcome(&format!("zones:{}", if signing.is_signed() { "signed" } else { "unsigned" }));
+        for (qi, t, res) in &refs {
+            let qn = &qnames[*qi];
+            let class = class_of(res);
+            if *signing == Signing::Unsigned {
+                l.outcome(&format!("ref:{class}"));
+                if class != "DATA" && class != "OUTOFZONE" {
+                    l.nontrivial(fnv_str(&format!("{zone_text}|{qn}|{t}")));
+                }
+            }
+            if let Some((vd, resp)) = run_query(&built, &zone, res, qn, *t, rt, l) {
+                let first = !l.has_violation_key(&vd.key);
+                l.violation(&vd.key, &vd.what, || {
+                    let min = if first { minimise(spec, signing, qn, *t, &vd.key, rt) } else { spec.clone() };
+                    let mut j = case_json(&min, signing, qn, *t);
+                    j["response"] = json!(resp);
+                    j["expected"] = json!(format!("{:?}", rz::resolve(&min.reference(), &Name::parse(qn), *t).steps));
+                    j
+                });
+            }
+        }
+    }
+    if sample {
+        l.sample(json!({"zone": zone_text, "queries": qnames.len() * QTYPES.len(), "signings": sigs.iter().map(|s| s.tag()).collect::<Vec<_>>()}));
+    }
+}
+
+/// CNAME chains of length 1..=9 and loops of length 1..=3 (crosses the server's chase depth 8).
+fn chain_family() -> Vec<(ZoneSpec, Vec<String>)> {
+    let mut out = vec![];
+    for n in 1..=9usize {
+        for end in 0..3 {
+            let mut spec = ZoneSpec::new("z.", &[]);
+            for i in 1..=n {
+                let target = if i < n {
+                    format!("c{}.z.", i + 1)
+                } else {
+                    match end {
+                        0 => "t.z.".to_string(),
+                        1 => "nx.z.".to_string(),
+                        _ => "x.o.".to_string(),
+                    }
+                };
+                spec.extra.push((format!("c{i}.z."), RecSpec::Cname(target)));
+            }
+            spec.extra.push(("t.z.".into(), RecSpec::A(9)));
+            let q: Vec<String> = (1..=n).map(|i| format!("c{i}.z.")).chain(["t.z.".to_string(), "nx.z.".to_string()]).collect();
+            out.push((spec, q));
+        }
+    }
+    for n in 1..=3usize {
+        let mut spec = ZoneSpec::new("z.", &[]);
+        for i in 1..=n {
+            spec.extra.push((format!("c{i}.z."), RecSpec::Cname(format!("c{}.z.", i % n + 1))));
+        }
+        let q: Vec<String> = (1..=n).map(|i| format!("c{i}.z.")).collect();
+        out.push((spec, q));
+    }
+    out
+}
+
+fn main() {
+    let ctx = Ctx::from_args("C10", "exploration");
+    let thorough = !ctx.quick();
+
+    // the reference model must reproduce the RFCs' own worked examples before it judges anything
+    let bad = rz::self_test();
+    if !bad.is_empty() {
+        for b in &bad {
+            eprintln!("reference self-test failed: {b}");
+        }
+        vcore::machinery_exit("vref::zone self-test failed");
+    }
+
+    if let Some((_key, case)) = ctx.replay_case() {
+        let spec = ZoneSpec::from_json(&case["zone"]).unwrap_or_else(|| vcore::machinery_exit("bad zone in replay"));
+        let signing = Signing::from_tag(case["signing"].as_str().unwrap_or("unsigned")).unwrap_or(Signing::Unsigned);
+        let qname = case["qname"].as_str().unwrap_or("z.").to_string();
+        let qtype = case["qtype"].as_u64().unwrap_or(1) as u16;
+        let rt = vsim::rt();
+        ctx.with_local(|l| {
+            let zone = spec.reference();
+            let res = rz::resolve(&zone, &Name::parse(&qname), qtype);
+            match vzone::build(&spec, &signing) {
+                Err(e) => l.violation("zone-build-failed", &e, || case.clone()),
+                Ok(b) => {
+                    if let Some((vd, resp)) = run_query(&b, &zone, &res, &qname, qtype, &rt, l) {
+                        eprintln!("replay: expected {:?}\nreplay: response {resp}", res.steps);
+                        l.violation(&vd.key, &vd.what, || case.clone());
+                    }
+                }
+            }
+        });
+        ctx.finish(false);
+    }
+
+    ctx.set_rule(
+        "every zone = apex + <=K owners of U(d) (labels {a,b,*}) x node kinds {A,TXT,A+TXT,MX,CNAME->{a.z.,b.z.,a.a.z.,x.o.},NS,NS+glue,NS+DS} \
+         (quick d=2,K=2; thorough d=2,K=3 and d=3,K=2) plus CNAME chains 1..9 / loops 1..3, x every query name of {apex, U(3), x.o., names below cuts} \
+         x qtypes {A,AAAA,MX,NS,CNAME,SOA,DS,TXT,ANY}, each as a wire query through the real Catalog against the unsigned (DO=0), NSEC-signed and \
+         NSEC3-signed (DO=1) zone; oracle = vref::zone (RFC 1034 4.3.2 + RFC 4592) on rcode, answer RR set, referral cut, SOA in negative answers, \
+         RRSIG/denial presence. Non-trivial = distinct (zone, qname, qtype) whose reference outcome is not a plain exact match (CNAME, cut, wildcard, ENT, NODATA, NXDOMAIN).",
+    );
+    ctx.assume("vref::zone (RFC 1034 4.3.2 / RFC 4592 reference lookup; self-tested against RFC 4592 2.2.1/3.3.1 and RFC 4034 6.1 on every run)");
+    ctx.assume("zone contents reach the server through InMemoryZoneHandler::upsert_mut and the real secure_zone_mut; Ed25519 (ring) signs deterministically");
+    ctx.assume("NS RRsets at wildcard owners are excluded from the grammar (RFC 4592 4.2: undefined)");
+
+    let sigs = signings(thorough);
+    let mut specs: Vec<ZoneSpec> = vec![];
+    if thorough {
+        specs.extend(vzone::family("z.", &vzone::universe(2), 3, &vzone::ALL_KINDS));
+        // depth-3 owners: only those zones that have at least one depth-3 owner (the others are above)
+        let u3 = vzone::universe(3);
+        specs.extend(
+            vzone::family("z.", &u3, 2, &vzone::ALL_KINDS)
+                .into_iter()
+                .filter(|s| s.owners.iter().any(|(o, _)| o.matches('.').count() == 4)),
+        );
+    } else {
+        specs.extend(vzone::family("z.", &vzone::universe(2), 2, &vzone::ALL_KINDS));
+    }
+    let chains = chain_family();
+    ctx.set("zones", json!(specs.len()));
+    ctx.set("chain_zones", json!(chains.len()));
+    ctx.set("signings", json!(sigs.iter().map(|s| s.tag()).collect::<Vec<_>>()));
+    let _ = Kind::A;
+
+    let n = specs.len() as u64;
+    let stride = (n / 12).max(1);
+    ctx.par_run_init(
+        n,
+        4,
+        |_| vsim::rt(),
+        |i, l, rt| {
+            let spec = &specs[i as usize];
+            let qnames = spec.query_names(3);
+            run_zone(spec, &qnames, &sigs, rt, l, i % stride == 0);
+        },
+    );
+    ctx.par_run_init(
+        chains.len() as u64,
+        1,
+        |_| vsim::rt(),
+        |i, l, rt| {
+            let (spec, q) = &chains[i as usize];
+            run_zone(spec, q, &sigs, rt, l, i == 26);
+        },
+    );
+
+    // vacuity: every important reference class and both DNSSEC outcome classes must have occurred
+    for class in [
+        "ref:DATA",
+        "ref:CNAME->DATA",
+        "ref:CNAME-loop",
+        "ref:REFERRAL",
+        "ref:SYNTH",
+        "ref:NODATA-other",
+        "ref:NODATA-ent",
+        "ref:NODATA-wild",
+        "ref:NXDOMAIN",
+        "dnssec:negative-with-denial",
+        "dnssec:wildcard-with-denial",
+    ] {
+        if ctx.outcome_count(class) == 0 {
+            ctx.machinery_failure(&format!("vacuous run: outcome class {class} never occurred"));
+        }
+    }
+    let mut per_class: BTreeMap<String, u64> = BTreeMap::new();
+    for c in ["zones:unsigned", "zones:signed"] {
+        per_class.insert(c.to_string(), ctx.outcome_count(c));
+    }
+    ctx.set("zones_built", json!(per_class));
+    ctx.finish(true);
+}
